@@ -65,6 +65,7 @@ func dutydbAttestation(pc *probe, k unsignedKind, ver eth2spec.DataVersion, mode
 				return db.Store(ctx, duty, set)
 			},
 			close: db.Shutdown,
+			dl:    dl,
 		}
 		switch mode {
 		case "await":
@@ -105,6 +106,7 @@ func dutydbProposal(pc *probe, k unsignedKind, ver eth2spec.DataVersion) {
 			read:   func(ctx context.Context) (any, error) { return db.AwaitProposal(ctx, uint64(slot)) },
 			expect: &prop.VersionedProposal,
 			close:  db.Shutdown,
+			dl:     dl,
 		}
 	})
 }
@@ -142,6 +144,7 @@ func dutydbAggAtt(pc *probe, k unsignedKind, ver eth2spec.DataVersion) {
 			},
 			expect: &agg.VersionedAttestation,
 			close:  db.Shutdown,
+			dl:     dl,
 		}
 	})
 }
@@ -174,6 +177,7 @@ func dutydbContrib(pc *probe, k unsignedKind, ver eth2spec.DataVersion) {
 			},
 			expect: &target.SyncCommitteeContribution,
 			close:  db.Shutdown,
+			dl:     dl,
 		}
 	})
 }
@@ -241,6 +245,7 @@ func aggsigdbProbe(pc *probe, impl string, k signedKind, ver eth2spec.DataVersio
 		}
 
 		return storeOps{
+			dl: dl,
 			store: func(ctx context.Context, in any) error {
 				set, _ := in.(core.SignedDataSet)
 				return db.Store(ctx, duty, set)
